@@ -169,7 +169,8 @@ def write_back(tree, related_classes, sites, only=None, keep=(), methods=()):
     ``related_classes(cls)``: the classes tied to cls by inheritance (itself included); ``keep``: texts of bindings
     that stay as they are (the confirmed tree writes them too)"""
     by_class, anywhere = sites
-    keep = set(keep)
+    keep_by_func = keep if isinstance(keep, dict) else None
+    keep = set() if keep_by_func is not None else set(keep)
     methods = set(methods) | CONTAINER_METHODS
     done = []
     module_names = set()
@@ -180,22 +181,29 @@ def write_back(tree, related_classes, sites, only=None, keep=(), methods=()):
             elif isinstance(n, ast.alias):
                 module_names.add((n.asname or n.name).split(".")[0])
 
-    def visit(node, cls, active):
+    top_name = [None]
+
+    def visit(node, cls, active, top=None):
         for ch in ast.iter_child_nodes(node):
             if isinstance(ch, ast.ClassDef):
-                visit(ch, ch.name, active)
+                visit(ch, ch.name, active, top)
             elif isinstance(ch, FuncTypes):
                 act = active or only is None or any(ch is o for o in only)
+                top_name[0] = top or ch.name
                 for _ in range(12 if act else 0):
                     got = _one(ch, cls)
                     if not got:
                         break
                     done.append("%s: %s" % (ch.name, got))
-                visit(ch, cls, act)
+                visit(ch, cls, act, top or ch.name)
             else:
-                visit(ch, cls, active)
+                visit(ch, cls, active, top)
 
     def _one(fn, cls):
+        nonlocal keep
+        if keep_by_func is not None:
+            # what the confirmed unit of the same name (with everything nested in it) binds
+            keep = keep_by_func.get(top_name[0], set()) | keep_by_func.get(fn.name, set())
         if any(isinstance(n, (ast.Global, ast.Nonlocal)) for n in ast.walk(fn)):
             return None
         params = {a.arg for a in fn.args.args + fn.args.kwonlyargs + fn.args.posonlyargs}
@@ -370,9 +378,11 @@ def write_back(tree, related_classes, sites, only=None, keep=(), methods=()):
                     if not (isinstance(st, ast.Assign) and len(st.targets) == 1 and isinstance(st.targets[0], ast.Name)):
                         continue
                     v = st.targets[0].id
-                    if v in params or len(stores.get(v, [])) != 1 or ast.unparse(st) in keep:
+                    if v in params or len(stores.get(v, [])) != 1 or ast.unparse(st) in keep or ("name " + v) in keep:
                         continue
                     e = st.value
+                    if ("value " + ast.unparse(e)) in keep:
+                        continue
                     if isinstance(e, (ast.Constant, ast.Name)) and not (isinstance(e, ast.Constant) and isinstance(e.value, (str, int, float))):
                         continue            # plain copies of names are the business of the equivalence engine
                     locals_used, numeric = set(), [True]
